@@ -117,7 +117,10 @@ func (e *Engine) merge(a, b *State) *State {
 	if b.Infeasible() {
 		return a
 	}
-	if !sameDefers(a.defers, b.defers) || !sameLocks(a.locks, b.locks) || a.nlock != b.nlock || len(a.snaps) != len(b.snaps) {
+	if !sameDefers(a.defers, b.defers) || !sameLocks(a.locks, b.locks) {
+		return nil
+	}
+	if (a.nlock != b.nlock || len(a.snaps) != len(b.snaps)) && !e.forceMerge {
 		return nil
 	}
 	// states that diverged a lot (e.g. one went through a loop or a contract call) stay separate paths:
@@ -151,6 +154,24 @@ func (e *Engine) merge(a, b *State) *State {
 	ca, fa := split(a)
 	cb, fb := split(b)
 	m := a.Clone()
+	if a.epoch != b.epoch {
+		// a wholesale havoc happened on one side only: keys untouched by both are unknown after the join
+		freshCtr++
+		m.epoch = freshCtr
+	}
+	if b.nlock > m.nlock {
+		m.nlock = b.nlock
+	}
+	if len(a.snaps) != len(b.snaps) {
+		// keep only labels both paths passed (at(label, ..) on the others is "not reached")
+		ns := map[string]*State{}
+		for k, v := range a.snaps {
+			if _, ok := b.snaps[k]; ok {
+				ns[k] = v
+			}
+		}
+		m.snaps = ns
+	}
 	m.path = append([]*Term(nil), a.path[:L]...)
 	m.pk = append([]bool(nil), a.pk[:L]...)
 	m.Branch(Or(ca, cb)) // a (disjunctive) branch condition: later merges must keep guarding with it
@@ -183,7 +204,7 @@ func (e *Engine) merge(a, b *State) *State {
 	for k, va := range a.heap {
 		vb, ok := b.heap[k]
 		if !ok {
-			vb = Var("H0$"+smtIdent(strings.TrimPrefix(k, jivaMod+"/")), va.S)
+			vb = initHeapSym(b, k, va.S)
 		}
 		if va != vb {
 			m.heap[k] = e.compact(m, Ite(ca, va, vb), "h")
@@ -191,7 +212,7 @@ func (e *Engine) merge(a, b *State) *State {
 	}
 	for k, vb := range b.heap {
 		if _, ok := a.heap[k]; !ok {
-			va := Var("H0$"+smtIdent(strings.TrimPrefix(k, jivaMod+"/")), vb.S)
+			va := initHeapSym(a, k, vb.S)
 			if va != vb && va.String() != vb.String() {
 				m.heap[k] = e.compact(m, Ite(ca, va, vb), "h")
 			} else {
@@ -451,7 +472,7 @@ func (fr *Frame) execStmt(st *State, s ast.Stmt) (res []Outcome) {
 	case *ast.SelectStmt:
 		fr.unsupported(s, "select statement")
 	case *ast.TypeSwitchStmt:
-		fr.unsupported(s, "type switch")
+		return fr.execTypeSwitch(st, s)
 	}
 	fr.unsupported(s, "statement %T", s)
 	return nil
@@ -1386,4 +1407,89 @@ func (fr *Frame) writesMap(x ast.Expr, ms *modSet) bool {
 		}
 	}
 	return false
+}
+
+// execTypeSwitch: `switch [v :=] x.(type) { case T...: }` - cases are tried in order.
+func (fr *Frame) execTypeSwitch(st *State, s *ast.TypeSwitchStmt) []Outcome {
+	if s.Init != nil {
+		outs := fr.execStmt(st, s.Init)
+		if len(outs) != 1 || outs[0].kind != oNormal {
+			fr.unsupported(s, "switch-init with control flow")
+		}
+		st = outs[0].st
+	}
+	var ta *ast.TypeAssertExpr
+	var bindID *ast.Ident
+	switch a := s.Assign.(type) {
+	case *ast.ExprStmt:
+		ta, _ = a.X.(*ast.TypeAssertExpr)
+	case *ast.AssignStmt:
+		ta, _ = a.Rhs[0].(*ast.TypeAssertExpr)
+		bindID, _ = a.Lhs[0].(*ast.Ident)
+	}
+	if ta == nil {
+		fr.unsupported(s, "type switch form")
+	}
+	x := fr.eval(st, ta.X)
+	var out []Outcome
+	rest := st
+	var deflt *ast.CaseClause
+	for _, c := range s.Body.List {
+		cc := c.(*ast.CaseClause)
+		if cc.List == nil {
+			deflt = cc
+			continue
+		}
+		var conds []*Term
+		var single types.Type
+		for _, tx := range cc.List {
+			if id, ok := tx.(*ast.Ident); ok && id.Name == "nil" {
+				conds = append(conds, Eq(x, IntLit(0)))
+				continue
+			}
+			tt := fr.info.TypeOf(tx)
+			single = tt
+			conds = append(conds, fr.dynIs(x, tt))
+		}
+		cond := Or(conds...)
+		t := rest.Clone()
+		t.Branch(cond)
+		if bindID != nil {
+			if obj, ok := fr.info.Implicits[cc].(*types.Var); ok {
+				if len(cc.List) == 1 && single != nil && fr.e.sortOf(single) != IntSort {
+					un := "unbox$" + smtIdent(fr.e.sortOf(single).Name)
+					DeclFunc(un, fr.e.sortOf(single), IntSort)
+					t.vars[obj] = App(un, x)
+				} else {
+					t.vars[obj] = x
+				}
+			}
+		}
+		if !t.Infeasible() {
+			for _, o := range fr.execBlock(t, cc.Body) {
+				if o.kind == oBreak && o.label == "" {
+					o.kind = oNormal
+				}
+				out = append(out, o)
+			}
+		}
+		rest = rest.Clone()
+		rest.Branch(Not(cond))
+	}
+	if deflt != nil {
+		if bindID != nil {
+			if obj, ok := fr.info.Implicits[deflt].(*types.Var); ok {
+				rest.vars[obj] = x
+			}
+		}
+		for _, o := range fr.execBlock(rest, deflt.Body) {
+			if o.kind == oBreak && o.label == "" {
+				o.kind = oNormal
+			}
+			out = append(out, o)
+		}
+	} else {
+		out = append(out, Outcome{oNormal, "", rest})
+	}
+	return fr.mergeNormals(out)
 }
